@@ -3,25 +3,28 @@
    the remote entries of the trie, mesh's gossipSender buckets with the swarm's payload adapter), tied
    to real brokers over a simulated full mesh of real gossipSenders by the c05 harness on every run.
 
-   Proved, for EVERY schedule - any interleaving of client subscribe / unsubscribe requests with
-   deliveries in any order, coalescing of queued payloads, relaying, periodic complete states, peers
-   declared unreachable and coming back: every broker's routing for every peer it has in its member
-   list is exactly a function of its replicated state (the per-peer counter of a channel is the
-   number of that peer's subscriptions that are active in the state, the trie forwards the channel to
-   the peer iff that number is positive), and nothing is forwarded to a peer that is not a member.
-   Together with the convergence of the replicated state (C04: merge is order-, grouping- and
-   duplicate-insensitive) this gives the property at quiescence for every peer that is a member.
-
-   No schedule is known on which the current tree fails the property (the former witnesses F4 / F5,
-   F7, F7c were repaired in /repo and are kept as regression examples); what is NOT proved is the
-   composition: that the views do converge once gossip has quiesced (C04 proves the algebra of merge,
-   not the liveness of the transport) and that every reachable peer is a member (it becomes one with
-   the first payload that changes one of its entries and whenever the periodic update sees it).
-   The harness checks the end result - routing equals the ground truth and every publish reaches
-   every live subscriber once - at the end of every schedule on real brokers. *)
+   Proved, for EVERY schedule - any interleaving of client subscribe / unsubscribe requests (bursts on
+   one channel included) with deliveries in any order, coalescing of queued payloads, relaying,
+   periodic complete states, peers declared unreachable and coming back:
+   (a) every broker's routing for every peer in its member list is exactly a function of its
+       replicated state, nothing is forwarded to a non-member (Proofs/ClusterProofs.v);
+   (b) THE PROPERTY: once gossip has quiesced (no link holds anything) and every pair that was
+       separated has come back, all brokers hold the same times for every entry, every broker forwards
+       a channel to another broker exactly when that one has a live local subscriber for it, and a
+       publish at any broker reaches exactly the live subscribers of its channel, each once
+       (Proofs/ClusterConverge.v, Proofs/ClusterRoutes.v).  The proof is an invariant of the whole
+       world: nobody knows more about an entry than its owner; what the owner knows is at the other
+       broker or on the direct link towards it; a broker whose entries are active somewhere is a member
+       there; a broker's own entries reflect its local subscriptions.
+   Hypotheses on schedules (boolean, evaluated by the check on every schedule it replays on the real
+   brokers): events name brokers of the cluster; the clock readings a broker uses for its own
+   operations strictly increase (crdt.Now is the wall clock in nanoseconds); at the end no pair is
+   separated.  Not modelled: mesh's topology gossip and routing (full mesh), wall-clock peer activity
+   (all peers active). *)
 From stdpp Require Import gmap.
 From Coq Require Import ZArith List.
-From Emitter Require Import Model.Lww Model.Sender Model.Cluster Proofs.LwwProofs Proofs.ClusterProofs Findings.C05.
+From Emitter Require Import Model.Lww Model.Sender Model.Cluster Model.ClusterSched Proofs.LwwProofs Proofs.ClusterProofs Findings.C05
+     Proofs.ClusterLinks Proofs.ClusterConverge Proofs.ClusterRoutes.
 Import ListNotations.
 Local Open Scope N_scope.
 
@@ -85,6 +88,49 @@ Theorem C05_former_witnesses_route_correctly :
   /\ (let w := run [1; 2] f7c_schedule in quiet w && routing_ok w) = true.
 Proof. exact C05_former_witnesses_route_correctly. Qed.
 Print Assumptions C05_former_witnesses_route_correctly.
+
+
+(* ---- the property itself ---- *)
+(* once gossip has quiesced and every separated pair is back, on EVERY schedule: all views agree on
+   the times of every entry, and every broker forwards a channel to another broker exactly when that
+   broker has a live local subscriber for it *)
+Theorem C05_quiescent_views_agree_and_routing_is_the_truth : forall ns es,
+  List.NoDup ns -> sched_ok ns ghost0 es -> all_up ns (grun es) -> quiet (run ns es) = true ->
+  (forall a b, In a ns -> In b ns -> forall k, times (S (run ns es) a) k = times (S (run ns es) b) k)
+  /\ (forall b p, In b ns -> In p ns -> b <> p -> forall s,
+        In (s, p) (bk_remote (get_broker (run ns es) b)) <-> exists conn, In (s, conn) (bk_local (get_broker (run ns es) p))).
+Proof. exact schedules_converge. Qed.
+Print Assumptions C05_quiescent_views_agree_and_routing_is_the_truth.
+
+(* the same in the executable terms of the correspondence check: hypotheses as booleans, conclusion
+   the check's own comparison of every broker's remote entries with the ground truth *)
+Theorem C05_quiescent_routing_ok : forall ns es,
+  nodupb ns = true -> sched_okb ns ghost0 es = true -> all_upb ns (grun es) = true -> quiet (run ns es) = true ->
+  routing_ok (run ns es) = true.
+Proof. exact quiescent_routing_ok. Qed.
+Print Assumptions C05_quiescent_routing_ok.
+
+(* a publish at any broker reaches exactly the live subscribers of its channel, each once *)
+Theorem C05_quiescent_delivery_exactly_once : forall ns es,
+  nodupb ns = true -> sched_okb ns ghost0 es = true -> all_upb ns (grun es) = true -> quiet (run ns es) = true ->
+  forall b s, In b ns ->
+    List.NoDup (receivers (run ns es) b s)
+    /\ forall x, In x (receivers (run ns es) b s) <-> In x (live_subscribers (run ns es) s).
+Proof. exact quiescent_delivery. Qed.
+Print Assumptions C05_quiescent_delivery_exactly_once.
+
+(* the invariant behind it, for every schedule (quiescent or not) *)
+Theorem C05_world_invariant : forall ns es, List.NoDup ns -> sched_ok ns ghost0 es -> CONV ns (run ns es) (grun es).
+Proof. exact CONV_run. Qed.
+Print Assumptions C05_world_invariant.
+
+(* the hypotheses are met by schedules with bursts, coalescing, complete states, a peer collected and back *)
+Theorem C05_hypotheses_met :
+  (sched_okb [1; 2] ghost0 f5_schedule && all_upb [1; 2] (grun f5_schedule) && quiet (run [1; 2] f5_schedule)) = true
+  /\ (sched_okb [1; 2; 3] ghost0 f7_schedule && all_upb [1; 2; 3] (grun f7_schedule) && quiet (run [1; 2; 3] f7_schedule)) = true
+  /\ (sched_okb [1; 2] ghost0 f7c_schedule && all_upb [1; 2] (grun f7c_schedule) && quiet (run [1; 2] f7c_schedule)) = true.
+Proof. exact hypotheses_met. Qed.
+Print Assumptions C05_hypotheses_met.
 
 (* the invariant is not vacuous: a broker that merged a coalesced unsubscribe-and-resubscribe (the
    payload that the delta-counting merge counted twice) and the final unsubscribe *)
